@@ -153,49 +153,12 @@ func check(c Case) (o ev.Outcome) {
 	return o
 }
 
-var frags = []string{"a", "pattern", " ", "\n", "\t", "\r", ";", "{", "}", "\"", "'", "\\", "+", "/", "*", "n"}
-
 func enumerate(tier string, shard, shards int, emit func(Case) bool) bool {
 	maxL := 5
 	if tier == "thorough" {
 		maxL = 6
 	}
-	ok := true
-	idx := 0
-	var rec func(prefix string, l int, mine bool)
-	rec = func(prefix string, l int, mine bool) {
-		if !ok {
-			return
-		}
-		if l > 0 && mine {
-			if !emit(Case{Text: prefix}) {
-				ok = false
-				return
-			}
-		}
-		if l == maxL {
-			return
-		}
-		for _, f := range frags {
-			m := mine
-			if l == 1 {
-				// shard by the first two fragments; shorter texts go to shard 0
-				idx++
-				m = idx%shards == shard
-			}
-			if l < 2 && l > 0 {
-				rec(prefix+f, l+1, m)
-			} else if l == 0 {
-				// length-1 texts: shard 0
-				rec(prefix+f, l+1, shard == 0)
-			} else {
-				rec(prefix+f, l+1, mine)
-			}
-		}
-	}
-	// length-1 texts are emitted by shard 0, length>=2 by the shard owning the 2-prefix
-	rec("", 0, false)
-	return ok
+	return textgen.EnumTexts(maxL, shard, shards, func(s string) bool { return emit(Case{Text: s}) })
 }
 
 func gen(t *rapid.T) Case {
